@@ -642,6 +642,8 @@ class E3Session(SessionBase):
                 for i in it['ids']:
                     # compare what the requests *mean* (defaults resolved by the real loader), not their spelling
                     r_ = requests_from_json({'path-request': [deepcopy(reqdocs[i])]}, self.equipment)[0]
+                    from gnpy.topology.request import correct_json_route_list
+                    correct_json_route_list(self.network, [r_])     # unknown LOOSE include nodes are dropped
                     d = {k: canon(v) for k, v in vars(r_).items() if k not in ('request_id', 'path_bandwidth', 'N', 'M')}
                     docs_.append(d)
                 if any(d != docs_[0] for d in docs_[1:]):
